@@ -658,6 +658,18 @@ func checkC12(c *Ctx) error {
 		f["internals.go"] = pc.Stub
 		cli = append(cli, cliCase{f, "valid-spec-with-package", ""})
 	}
+	// valid specifications of unusual but legal shapes: every generated file has
+	// to be (re)written whatever the specification contains
+	okGo := "package PKGNAME\n\nimport \"batch/hc\"\n\ntype Token = hc.Token\n\ntype P struct{ lox }\n\nfunc (p *P) on_s(a Token, b Token) int { return 0 }\n"
+	for _, lx := range []string{
+		"@lexer\n@external A B\n\n@parser\n@start s = A B\n",                                       // no lexer rule at all
+		"@lexer\n@external A\n@external B\n@frag [ \\n]+ @discard\n\n@parser\n@start s = A B\n",     // only a discarding fragment
+		"@lexer\n@external A B\n@mode M {\n  @frag 'x' @pop_mode\n}\n\n@parser\n@start s = A B\n", // a mode nobody enters, no token
+		"@parser\n@start s = A B\n@lexer\n@external A B\n",                                          // parser section first
+	} {
+		cli = append(cli, cliCase{map[string]string{"p.go": okGo, "g.lox": lx}, "valid-spec-with-package (unusual shape)", ""})
+	}
+	cli = append(cli, cliCase{map[string]string{"p.go": tinyGo, "g.lox": "@lexer\nA = 'a'\n@frag [ \\n]+ @discard\n"}, "valid-spec-with-package (no parser section)", ""})
 	b, err := c.Env.NewBatch()
 	if err != nil {
 		return err
@@ -714,7 +726,7 @@ func checkC12(c *Ctx) error {
 			}
 		}
 		kind, why := judgeCLI(v, dir)
-		if cc.origin == "valid-spec-with-package" && kind == "" && v.exit != 0 {
+		if strings.HasPrefix(cc.origin, "valid-spec-with-package") && kind == "" && v.exit != 0 {
 			kind, why = "valid-spec-rejected", fmt.Sprintf("exit %d:\n%s", v.exit, trimTo(v.stderr, 1500))
 		}
 		if kind == "" {
